@@ -659,6 +659,46 @@ def writable_globals_of(mod, is_root):
     return found
 
 
+def written_globals(mod):
+    """non-constant globals that some instruction of the module may modify: the target of a store or mem intrinsic, or handed to a call
+    (a never-written, never-escaping static table that merely lacks `const` carries no state from one call to the next)"""
+    from .. import ir
+    wr = {g["name"] for g in mod.globals if not g["constant"]}
+    out = set()
+
+    def gname(v):
+        v = tuple(v) if isinstance(v, list) else v
+        if not isinstance(v, tuple) or not v:
+            return None
+        if v[0] == "g":
+            return v[1]
+        if v[0] == "ce":
+            for x in (v[2] or []):
+                n_ = gname(x)
+                if n_:
+                    return n_
+        return None
+    for f in mod.fns.values():
+        for I in f.real_insts():
+            cands = []
+            if I.op == "store":
+                cands.append(I.ops[1])
+                cands.append(I.ops[0])          # the address itself stored somewhere: escapes
+            elif I.op == "call":
+                cands.extend(I.call_args())
+            elif I.op in ("ptrtoint", "phi", "select", "ret"):
+                cands.extend(o for o in I.ops if isinstance(o, (list, tuple)))
+            for v in cands:
+                v = tuple(v) if isinstance(v, list) else v
+                n_ = gname(v)
+                if n_ is None and isinstance(v, tuple) and v and v[0] == "i":
+                    b_, _o = ir.ptr_base(f, v)
+                    n_ = gname(b_)
+                if n_ in wr:
+                    out.add(n_)
+    return out
+
+
 def premises(ck, mod, rule, label="H/N0", perm=True):
     """the hash layer as a premise of a construction built on it (HMAC, HKDF, PBKDF2, PRNG): all C10/C11 rules
     re-run and reported under the caller's rule id - if the hash is not the documented one, or does not stream, the
